@@ -112,6 +112,26 @@ func runC13Stress(c *Ctx) {
 		}
 	}
 	results = append(results, c13OCSPScenario(c, dur, workers))
+	// the state "last refresh failed signature verification" and the handshake that repairs it
+	for _, storage := range []string{"memory", "disk"} {
+		r := rolloverScenario(c, storage)
+		rr := c13Result{Scenario: "rollover/" + storage, Calls: int64(len(r.Obs))}
+		for i, o := range r.Obs {
+			switch {
+			case o == "hang" || o == "aborted":
+				rr.Hangs++
+				if rr.FirstBad == "" {
+					rr.FirstBad = r.Steps[i]
+				}
+			case len(o) >= 5 && o[:5] == "panic":
+				rr.Panics++
+				if rr.FirstBad == "" {
+					rr.FirstBad = r.Steps[i] + ": " + o
+				}
+			}
+		}
+		results = append(results, rr)
+	}
 	b, _ := json.Marshal(results)
 	os.WriteFile(filepath.Join(c.Out, "c13stress.json"), b, 0644)
 }
